@@ -36,7 +36,7 @@ def run_proxy_property(prop, tier, seed, fams, nquick, nthorough, rule, assumpti
                       "actions_never_taken": sorted(a for a, n in (r.get("actions") or {}).items() if n == 0)})
     n = nquick if tier == "quick" else nthorough
     flist = list(fams(tier))
-    with ThreadPoolExecutor(max_workers=13) as ex:
+    with ThreadPoolExecutor(max_workers=9) as ex:
         results = list(ex.map(lambda t: proxyfam.run_family(t[1], n, seed * 1000 + 500 + t[0]), enumerate(flist)))
     traces = lines = 0
     kinds, famres, sample = {}, [], None
